@@ -119,14 +119,14 @@ func (u *c11U) UnmarshalFlag(s string) error {
 }
 
 type c11Other struct {
-	M   map[string]int `long:"m"`
+	M   map[string]int    `long:"m"`
 	MS  map[string]string `long:"ms"`
-	L   []int          `long:"l"`
-	P   *int           `long:"p"`
-	PS  *string        `long:"ps"`
-	C   string         `long:"c" choice:"a" choice:"bb" choice:"c c"`
-	UV  c11U           `long:"uv"`
-	UP  *c11U          `long:"up"`
+	L   []int             `long:"l"`
+	P   *int              `long:"p"`
+	PS  *string           `long:"ps"`
+	C   string            `long:"c" choice:"a" choice:"bb" choice:"c c"`
+	UV  c11U              `long:"uv"`
+	UP  *c11U             `long:"up"`
 	Pos struct {
 		B bool
 	} `positional-args:"yes"`
@@ -253,7 +253,70 @@ func H_C11_other(v *V) {
 	}
 }
 
+type c11Floats struct {
+	F32 float32   `long:"f32"`
+	F64 float64   `long:"f64"`
+	P32 *float32  `long:"p32"`
+	S32 []float32 `long:"s32"`
+}
+
+// boundary texts for floating point kinds: text, accepted as float32, accepted as float64
+var c11FloatSamples = []struct {
+	text string
+	ok32 bool
+	ok64 bool
+}{
+	{"0", true, true},
+	{"-1.5", true, true},
+	{"3.4028234e38", true, true},          // just below MaxFloat32
+	{"3.4028235677973366e38", true, true}, // just below the rounding midpoint: MaxFloat32
+	{"3.4028236e38", false, true},         // above the midpoint: not a finite float32
+	{"1e39", false, true},
+	{"-3.5e38", false, true},
+	{"1e-46", true, true}, // underflows to 0 as float32 (accepted by strconv)
+	{"1.7976931348623157e308", false, true},
+	{"1e309", false, false},
+	{"0x1p-2", true, true},
+	{"1e", false, false},
+	{" 1", false, false},
+	{"", false, false},
+}
+
+// H_C11_float: boundary texts for the floating point kinds (concrete samples:
+// symbolic text cannot be pushed through ParseFloat).
+func H_C11_float(v *V) {
+	smp := c11FloatSamples[v.Choice(len(c11FloatSamples))]
+	kind := v.Choice(4)
+	d := &c11Floats{}
+	p := NewNamedParser("prog", None)
+	p.AddGroup("Application Options", "", d)
+	name := []string{"f32", "f64", "p32", "s32"}[kind]
+	_, err := p.ParseArgs([]string{"--" + name + "=" + smp.text})
+	want := smp.ok32
+	if kind == 1 {
+		want = smp.ok64
+	}
+	vObsErr(v, err)
+	v.Reach("float")
+	v.Assert((err == nil) == want, "a float text is accepted iff it denotes a finite value of the field's precision")
+	if err != nil {
+		t, typed := vErrType(err)
+		v.Assert(typed && t == ErrMarshal, "a rejected float is ErrMarshal")
+		return
+	}
+	inf32 := func(x float32) bool { return x > 3.4028234663852886e38 || x < -3.4028234663852886e38 }
+	switch kind {
+	case 0:
+		v.Assert(!inf32(d.F32), "the stored float32 is finite (never clamped to infinity)")
+	case 2:
+		v.Assert(d.P32 != nil && !inf32(*d.P32), "the stored *float32 is finite")
+	case 3:
+		v.Assert(len(d.S32) == 1 && !inf32(d.S32[0]), "the stored []float32 element is finite")
+	}
+}
+
 func init() {
+	vHarnesses["H_C11_float"] = H_C11_float
 	vHarnesses["H_C11_int"] = H_C11_int
 	vHarnesses["H_C11_other"] = H_C11_other
 }
